@@ -74,8 +74,9 @@ func VerifC04History(strategy int, k int) {
 			if wasIn {
 				lateProbe = true
 			}
+			wasHealthy := b.IsHealthy
 			lb.processHealthCheckResponse(b, &http.Response{StatusCode: http.StatusOK})
-			verifrt.Assert(verifrt.Implies(!wasIn, b.IsHealthy), "a successful probe never ejects")
+			verifrt.Assert(verifrt.Implies(wasHealthy, b.IsHealthy), "a successful probe never ejects")
 		case 4:
 			if !probeInFlight {
 				continue
